@@ -116,7 +116,7 @@ def generate(R, tier, focus):
             # the live catalog object is changed in place between round trips (optionally after its dict form was built)
             ci = R.randrange(len(cats))
             how = 'spatial' if (cats[ci]['mixed'] or cats[ci]['with_region']) and R.random() < 0.6 else \
-                R.choice(('filter', 'filter', 'filter_copy'))
+                R.choice(('filter', 'filter', 'filter_copy', 'poke'))
             thr = R.choice([e[5] for e in cats[ci]['events']] or [5.0])
             ops.append({'op': 'MUTATE', 'cat': ci, 'how': how, 'stmt': 'magnitude %s %r' % (R.choice(('>=', '<', '>')), thr),
                         'warm': R.choice(('none', 'to_dict', 'write_json', 'to_dataframe'))})
@@ -180,7 +180,8 @@ def generate18(R, tier):
     return {'engine': 'persistsim', 'kind': 'C18', 'sub': sub, 'inner': inner, 'region18': region, 'twin18': twin18,
             'mags18': gen.gen_mags(R), 'backup': R.random() < 0.3, 'calibration': R.random() < 0.4,
             'probe_seed': R.randint(0, 10 ** 9), 'tz': R.choice(TZ_CHOICES), 'clock_us': R.randint(0, 4 * 10 ** 15),
-            'same_instant': R.random() < 0.5, 'scribble': R.random() < 0.2}
+            'same_instant': R.random() < 0.5, 'scribble': R.random() < 0.2,
+            'perm_prelude': R.choice((0, 0, R.randint(1, 10 ** 6)))}
 
 
 # --------------------------------------------------------------------------- execution
@@ -271,7 +272,17 @@ def _execute14(scn, ctx, store, clock):
                 call(c.write_json, store.path('warm_%d.json' % n_files))
             elif op['warm'] == 'to_dataframe' and (getattr(c, 'region', None) is None or not scn['cats'][ci].get('mixed')):
                 call(c.to_dataframe)
-            if op['how'] == 'filter_copy':
+            if op['how'] == 'poke':
+                # the caller edits the event array in place (element assignment on catalog.catalog, no setter involved)
+                if cur_events[ci]:
+                    k_ = oi % len(cur_events[ci])
+                    newmag = float(cur_events[ci][k_][5]) + 0.125
+                    r = call(lambda: c.catalog['magnitude'].__setitem__(k_, newmag))
+                    cur_events[ci] = [list(e) for e in cur_events[ci]]
+                    cur_events[ci][k_][5] = newmag
+                else:
+                    r = ('ok', None)
+            elif op['how'] == 'filter_copy':
                 # a filtered copy is taken and dropped; the original keeps all its events (and must round-trip them)
                 r = call(c.filter, op['stmt'], in_place=False)
             elif op['how'] == 'filter':
@@ -745,6 +756,17 @@ def _execute18(scn, ctx, store, clock):
             if rr[0] == 'ok' and not _same_region(ctx, rt[1], rr[1], tl, op_seed=scn['probe_seed']):
                 ctx.violate('C18', 'region', 'rebuilt-region-assigns-different-cell', {'which': 'look-alike lattice'})
     reg_lit = scn['region18']
+    if scn.get('perm_prelude') and len(reg_lit['origins']) > 1:
+        # the same cells listed in another order were rebuilt from their dict earlier in the process
+        pl = dict(reg_lit)
+        pl['origins'] = list(reg_lit['origins'])
+        random.Random(scn['perm_prelude']).shuffle(pl['origins'])
+        rp_ = call(build.make_region, pl, scn['mags18'])
+        if rp_[0] == 'ok':
+            rq_ = call(lambda: CartesianGrid2D.from_dict(rp_[1].to_dict()))
+            ctx.count('fire:same_cells_in_another_order_rebuilt_before')
+            if rq_[0] == 'ok' and not _same_region(ctx, rp_[1], rq_[1], pl, op_seed=scn['probe_seed'] + 1):
+                ctx.violate('C18', 'region', 'rebuilt-region-assigns-different-cell', {'which': 'permuted-order prelude'})
     ra_ = call(build.make_region, reg_lit, scn['mags18'])
     if ra_[0] != 'ok':
         ctx.count('region_construction_failed:' + ra_[1])      # C01's business
